@@ -11,10 +11,15 @@ export VERIF_TIER=${VERIF_TIER:-}
 mkdir -p "$HERE/bin" "$HERE/evidence" "$HERE/replays" "$HERE/.build"
 
 build_mc() {
-	# the module file is regenerated so that `replace` points at the tree under test
-	sed "s|=> /repo\$|=> $VERIF_REPO|" "$HERE/mc/go.mod" > "$HERE/mc/.build.mod"
-	cp "$HERE/mc/go.sum" "$HERE/mc/.build.sum"
-	(cd "$HERE/mc" && go build -modfile=.build.mod -o "$HERE/bin/mc" ./cmd/mc) || { echo "HARNESS ERROR: build of mc failed" >&2; exit 2; }
+	# the module file is regenerated so that `replace` points at the tree under test; module file and
+	# binary are private to this invocation, so checks may run side by side (also against different trees)
+	W="$HERE/.build/run.$$"
+	mkdir -p "$W"
+	trap 'rm -rf "$W"' EXIT
+	sed "s|=> /repo\$|=> $VERIF_REPO|" "$HERE/mc/go.mod" > "$W/build.mod"
+	cp "$HERE/mc/go.sum" "$W/build.sum"
+	(cd "$HERE/mc" && go build -modfile="$W/build.mod" -o "$W/mc" ./cmd/mc) || { echo "HARNESS ERROR: build of mc failed" >&2; exit 2; }
+	MC="$W/mc"
 }
 
 case "${1:-}" in
@@ -23,7 +28,8 @@ replay)
 	prop=$(python3 -c "import json,sys; print(json.load(open(sys.argv[1]))['property'])" "$rf") || exit 2
 	if [ "$prop" = C13 ]; then exec "$HERE/deploymc/run.sh" replay "$rf"; fi
 	build_mc
-	exec "$HERE/bin/mc" replay "$rf"
+	"$MC" replay "$rf"
+	exit $?
 	;;
 C13)
 	exec "$HERE/deploymc/run.sh" "$@"
@@ -31,7 +37,8 @@ C13)
 C[0-9][0-9])
 	tier=${2:-${VERIF_TIER:-quick}}
 	build_mc
-	exec "$HERE/bin/mc" "$1" "$tier"
+	"$MC" "$1" "$tier"
+	exit $?
 	;;
 *)
 	echo "usage: run.sh <Cxx> quick|thorough | run.sh replay <path>" >&2
